@@ -150,6 +150,10 @@ func (g *ctlGen) urrList() []uint32 {
 		seen[u] = true
 		out = append(out, u)
 	}
+	// "arbitrary URR lists": now and then the same URR ID child twice (the PDR still refers to that URR once)
+	if len(out) > 0 && g.r.chance(12) {
+		out = append(out, out[g.r.intn(len(out))])
+	}
 	return out
 }
 
@@ -482,6 +486,13 @@ func runCtl(c *ctx) {
 	netn += shard
 	peers := []int{1, 2, 3}
 	e := newCtlEnv(c, netn, append(append([]int{}, peers...), 9))
+	// the corpus of the profile (minimised past failures, witnesses of known findings) runs first, on shard 0
+	if am["corpus"] != "" && shard == 0 {
+		if f, err := os.Open(am["corpus"]); err == nil {
+			replayCases(c, e, f)
+			f.Close()
+		}
+	}
 	for cn := 0; cn < ncases; cn++ {
 		r := newRng(c.rng.u64() ^ uint64(cn)<<32 ^ uint64(shard)<<48)
 		maxRetrans := []int{0, 1, 2, 3, 3, 1}[r.intn(6)]
@@ -532,6 +543,11 @@ func runCtlReplay(c *ctx) {
 	}
 	defer f.Close()
 	e := newCtlEnv(c, netn, []int{1, 2, 3, 9})
+	replayCases(c, e, f)
+}
+
+// replayCases re-executes cases written one per line (C and E lines joined by " ;; ") or one line per C / E
+func replayCases(c *ctx, e *ctlEnv, f *os.File) {
 	started := false
 	sc := bufio.NewScanner(f)
 	sc.Buffer(make([]byte, 1<<20), 1<<24)
@@ -571,6 +587,7 @@ func runCtlReplay(c *ctx) {
 				fmt.Fprintln(os.Stderr, err)
 				os.Exit(2)
 			}
+			c.count("corpus.event")
 			e.exec(ev)
 		}
 	}
